@@ -148,8 +148,10 @@ Variables (r0 r1 : R) (radd rmul rsub : R -> R -> R) (ropp : R -> R) (rdiv : R -
 Hypothesis Rfield : field_theory r0 r1 radd rmul rsub ropp rdiv rinv (@eq R).
 Add Field Rf : Rfield.
 
-Local Infix "+" := radd.
-Local Infix "*" := rmul.
+Declare Scope r_scope.
+Local Infix "+" := radd : r_scope.
+Local Infix "*" := rmul : r_scope.
+Local Open Scope r_scope.
 Local Notation get := (get R r0).
 Local Notation ofn := (of_nat R r0 r1 radd).
 
@@ -179,15 +181,15 @@ Proof.
   rewrite IHa. rewrite <- Sum_add. reflexivity.
 Qed.
 
-Lemma Sum_split a b F : Sum (a * b) F = Sum a (fun i => Sum b (fun k => F (i * b + k))).
+Lemma Sum_split a b F : Sum (a * b) F = Sum a (fun i => Sum b (fun k => F (i * b + k)%nat)).
 Proof.
   induction a; simpl; [reflexivity|].
   rewrite <- IHa. clear IHa.
-  replace (b + a * b) with (a * b + b) by lia.
-  generalize (a * b) as m. intros m.
+  replace (b + a * b)%nat with (a * b + b)%nat by lia.
+  generalize (a * b)%nat as m. intros m.
   induction b; simpl.
   - rewrite Nat.add_0_r. ring.
-  - replace (m + S b) with (S (m + b)) by lia. simpl. rewrite IHb. ring.
+  - replace (m + S b)%nat with (S (m + b)) by lia. simpl. rewrite IHb. ring.
 Qed.
 
 (* picking one index out of a sum *)
@@ -222,7 +224,7 @@ Proof. apply nth_map_seq. Qed.
 
 (* ---- DOFDistributor._times --------------------------------------------------------------------- *)
 Lemma dist_times_length pre n post nbin pindex x :
-  length (dist_times R r0 pre n post nbin pindex x) = pre * n * post.
+  length (dist_times R r0 pre n post nbin pindex x) = (pre * n * post)%nat.
 Proof. unfold dist_times. rewrite map_length, seq_length. reflexivity. Qed.
 
 Lemma dist_times_get pre n post nbin pindex x i1 j i3 :
@@ -238,7 +240,7 @@ Qed.
 
 (* ---- DOFDistributor._adjoint_times ------------------------------------------------------------- *)
 Lemma dist_adjoint_length pre n post nbin pindex x :
-  length (dist_adjoint R r0 radd pre n post nbin pindex x) = pre * nbin * post.
+  length (dist_adjoint R r0 radd pre n post nbin pindex x) = (pre * nbin * post)%nat.
 Proof. unfold dist_adjoint. rewrite map_length, seq_length. reflexivity. Qed.
 
 Lemma column_length n post x i1 i3 : length (column R r0 n post x i1 i3) = n.
@@ -254,12 +256,12 @@ Proof.
   rewrite get_map_seq by (apply idx3_lt; assumption).
   destruct (idx3_decode nbin post i1 b i3 Hb H3) as (E1 & E2 & E3).
   rewrite E1, E2, E3.
-  assert (Hc : i1 * post + i3 < pre * post) by nia.
+  assert (Hc : (i1 * post + i3 < pre * post)%nat) by nia.
   rewrite (nth_map_seq _ _ _ [] Hc).
   assert (Hp : post <> 0) by lia.
-  assert (Ed : (i1 * post + i3) / post = i1).
+  assert (Ed : ((i1 * post + i3) / post = i1)%nat).
   { rewrite Nat.div_add_l by exact Hp. rewrite Nat.div_small by exact H3. lia. }
-  assert (Em : (i1 * post + i3) mod post = i3).
+  assert (Em : ((i1 * post + i3) mod post = i3)%nat).
   { rewrite Nat.add_comm, Nat.mod_add by exact Hp. apply Nat.mod_small; exact H3. }
   rewrite Ed, Em. unfold bincount, Model.get.
   rewrite (bincountG_nth r0 radd radd_assoc radd_0_r radd_0_l) by assumption.
@@ -268,3 +270,639 @@ Proof.
   destruct (nth j pindex 0 =? b); [|reflexivity].
   unfold column. rewrite get_map_seq by exact Hj. reflexivity.
 Qed.
+
+(* ---- Field.weight ------------------------------------------------------------------------------ *)
+Local Notation space := (space R).
+Local Notation pw := (pw R rinv).
+
+(* product of the per-pixel factors and of the scalar factors of a domain *)
+Fixpoint pfac (neg : bool) (d : list space) (t : nat) : R :=
+  match d with
+  | [] => r1
+  | s :: rest =>
+      match sdv s with
+      | Scalar _ => pfac neg rest t
+      | PerPix w => pw neg (get w ((t / prodsz rest) mod ssize s)) * pfac neg rest t
+      end
+  end.
+
+Fixpoint sfac (d : list space) : R :=
+  match d with
+  | [] => r1
+  | s :: rest => match sdv s with Scalar v => v * sfac rest | PerPix _ => sfac rest end
+  end.
+
+Lemma get_map (f : R -> R) (l : list R) t : t < length l -> get (map f l) t = f (get l t).
+Proof. intros H. unfold Model.get. apply nth_map_in. exact H. Qed.
+
+Lemma mul_axis_length neg n post w a : length (mul_axis R r0 rmul rinv neg n post w a) = length a.
+Proof. unfold mul_axis. rewrite map_length, seq_length. reflexivity. Qed.
+
+Lemma weight_go_spec neg d : forall fct a,
+  fst (weight_go R r0 rmul rinv neg d fct a) = fct * sfac d /\
+  length (snd (weight_go R r0 rmul rinv neg d fct a)) = length a /\
+  forall t, t < length a ->
+    get (snd (weight_go R r0 rmul rinv neg d fct a)) t = get a t * pfac neg d t.
+Proof.
+  induction d as [|s rest IH]; intros fct a; simpl.
+  - repeat split; [ring|]. intros; ring.
+  - destruct (sdv s) as [v|w].
+    + destruct (IH (fct * v) a) as (E1 & E2 & E3). repeat split; [rewrite E1; ring|exact E2|exact E3].
+    + destruct (IH fct (mul_axis R r0 rmul rinv neg (ssize s) (prodsz rest) w a)) as (E1 & E2 & E3).
+      rewrite mul_axis_length in E2, E3.
+      repeat split; [exact E1|exact E2|].
+      intros t Ht. rewrite E3 by exact Ht. unfold mul_axis at 1.
+      rewrite get_map_seq by exact Ht. ring.
+Qed.
+
+Lemma weight_length neg d a : length (weight R r0 r1 rmul rinv neg d a) = length a.
+Proof.
+  unfold weight. destruct (weight_go_spec neg d r1 a) as (_ & E2 & _).
+  destruct (weight_go R r0 rmul rinv neg d r1 a) as [fct a']. simpl in *.
+  rewrite map_length. exact E2.
+Qed.
+
+Lemma weight_get neg d a t :
+  t < length a ->
+  get (weight R r0 r1 rmul rinv neg d a) t = get a t * pfac neg d t * pw neg (sfac d).
+Proof.
+  intros Ht. unfold weight. destruct (weight_go_spec neg d r1 a) as (E1 & E2 & E3).
+  destruct (weight_go R r0 rmul rinv neg d r1 a) as [fct a']. simpl in *.
+  rewrite get_map by (rewrite E2; exact Ht). rewrite E3 by exact Ht.
+  replace fct with (sfac d) by (rewrite E1; ring). reflexivity.
+Qed.
+
+(* the factors of a product domain split along the block decomposition *)
+Lemma prodsz_app (d1 d2 : list space) : prodsz (d1 ++ d2) = (prodsz d1 * prodsz d2)%nat.
+Proof. induction d1; simpl; [lia|]. unfold prodsz in *. simpl. rewrite IHd1. lia. Qed.
+
+Lemma prodsz_cons (s : space) d : prodsz (s :: d) = (ssize s * prodsz d)%nat.
+Proof. reflexivity. Qed.
+
+Lemma sfac_app d1 d2 : sfac (d1 ++ d2) = sfac d1 * sfac d2.
+Proof. induction d1 as [|s d1 IH]; simpl; [ring|]. destruct (sdv s); rewrite IH; ring. Qed.
+
+Lemma pfac_post neg d : forall M i3, pfac neg d (M * prodsz d + i3) = pfac neg d i3.
+Proof.
+  induction d as [|s rest IH]; intros M i3; [reflexivity|].
+  rewrite prodsz_cons. simpl pfac.
+  replace (M * (ssize s * prodsz rest) + i3)%nat with ((M * ssize s) * prodsz rest + i3)%nat by lia.
+  rewrite IH. destruct (sdv s) as [v|w]; [reflexivity|].
+  f_equal. f_equal. f_equal.
+  destruct (Nat.eq_dec (prodsz rest) 0) as [Z|NZ].
+  - rewrite Z. reflexivity.
+  - rewrite Nat.div_add_l by exact NZ.
+    destruct (Nat.eq_dec (ssize s) 0) as [Zs|NZs].
+    + rewrite Zs. rewrite Nat.mul_0_r. reflexivity.
+    + rewrite Nat.add_comm. apply Nat.mod_add. exact NZs.
+Qed.
+
+Lemma pfac_app neg d1 d2 t :
+  prodsz d2 <> 0%nat ->
+  pfac neg (d1 ++ d2) t = pfac neg d1 (t / prodsz d2) * pfac neg d2 t.
+Proof.
+  intros NZ. induction d1 as [|s rest IH]; simpl; [ring|].
+  rewrite IH. destruct (sdv s) as [v|w]; [reflexivity|].
+  rewrite prodsz_app.
+  destruct (Nat.eq_dec (prodsz rest) 0) as [Z|NZr].
+  - rewrite Z. simpl. ring.
+  - rewrite (Nat.mul_comm (prodsz rest)). rewrite <- Nat.div_div by assumption. ring.
+Qed.
+
+Lemma pfac_block neg (dpre : list space) (s : space) (dpost : list space) i1 j i3 :
+  j < ssize s -> i3 < prodsz dpost ->
+  pfac neg (dpre ++ s :: dpost) (idx3 (ssize s) (prodsz dpost) i1 j i3)
+  = pfac neg dpre i1
+    * match sdv s with Scalar _ => r1 | PerPix w => pw neg (get w j) end
+    * pfac neg dpost i3.
+Proof.
+  intros Hj H3.
+  destruct (idx3_decode (ssize s) (prodsz dpost) i1 j i3 Hj H3) as (E1 & E2 & E3).
+  rewrite pfac_app by (rewrite prodsz_cons; nia).
+  rewrite prodsz_cons. rewrite (Nat.mul_comm (ssize s)).
+  rewrite <- Nat.div_div by lia. rewrite E3.
+  simpl pfac.
+  assert (EP : pfac neg dpost (idx3 (ssize s) (prodsz dpost) i1 j i3) = pfac neg dpost i3).
+  { unfold idx3. apply pfac_post. }
+  destruct (sdv s) as [v|w]; rewrite EP; [ring|]. rewrite E2. ring.
+Qed.
+
+(* ---- non-zero volume factors ------------------------------------------------------------------- *)
+Definition dvol_ok1 (s : space) : Prop :=
+  0 < ssize s /\
+  match sdv s with
+  | Scalar v => v <> r0
+  | PerPix w => length w = ssize s /\ Forall (fun x => x <> r0) w
+  end.
+Definition dvol_ok (d : list space) : Prop := Forall dvol_ok1 d.
+
+Lemma rmul_nonzero a b : a <> r0 -> b <> r0 -> a * b <> r0.
+Proof.
+  intros Ha Hb E. apply Hb.
+  transitivity (rinv a * (a * b)); [field; exact Ha|]. rewrite E. ring.
+Qed.
+
+Lemma r1_nonzero : r1 <> r0.
+Proof. exact (F_1_neq_0 Rfield). Qed.
+
+Lemma sfac_nonzero d : dvol_ok d -> sfac d <> r0.
+Proof.
+  induction 1 as [|s d [_ Hs] _ IH]; simpl; [exact r1_nonzero|].
+  destruct (sdv s); [apply rmul_nonzero; assumption|exact IH].
+Qed.
+
+Lemma pfac_inv d t : dvol_ok d ->
+  pfac false d t <> r0 /\ pfac true d t = rinv (pfac false d t).
+Proof.
+  induction 1 as [|s d [Hsz Hs] _ IH]; simpl.
+  - split; [exact r1_nonzero|]. field. exact r1_nonzero.
+  - destruct IH as [IH1 IH2]. destruct (sdv s) as [v|w]; [split; assumption|].
+    destruct Hs as [HL Hall].
+    assert (Hw : get w ((t / prodsz d) mod ssize s) <> r0).
+    { rewrite Forall_forall in Hall. apply Hall. unfold Model.get. apply nth_In.
+      rewrite HL. apply Nat.mod_upper_bound. lia. }
+    split; [apply rmul_nonzero; assumption|].
+    rewrite IH2. field. split; assumption.
+Qed.
+
+(* ---- PowerSpace volumes ------------------------------------------------------------------------ *)
+Definition bins_ok (pindex : list nat) (nbin : nat) : Prop :=
+  Forall (fun i => i < nbin) pindex /\ forall b, b < nbin -> nth b (rho pindex nbin) 0%nat <> 0%nat.
+
+Lemma rho_length pindex nbin : Forall (fun i => i < nbin) pindex -> length (rho pindex nbin) = nbin.
+Proof. intros H. unfold rho. apply bincountG_length. exact H. Qed.
+
+Lemma rho_no_zero pindex nbin : bins_ok pindex nbin -> existsb (Nat.eqb 0) (rho pindex nbin) = false.
+Proof.
+  intros [Hall Hne]. destruct (existsb (Nat.eqb 0) (rho pindex nbin)) eqn:E; [|reflexivity].
+  apply existsb_exists in E. destruct E as (c & Hin & Hc). apply Nat.eqb_eq in Hc. subst c.
+  destruct (In_nth _ _ 0%nat Hin) as (b & Hb & Eb). rewrite rho_length in Hb by exact Hall.
+  exfalso. exact (Hne b Hb Eb).
+Qed.
+
+Lemma pspace_dvol_get pindex nbin pdvol b :
+  Forall (fun i => i < nbin) pindex -> b < nbin ->
+  match sdv (pspace R r0 r1 radd rmul pindex nbin pdvol) with
+  | Scalar _ => False
+  | PerPix w => get w b = ofn (nth b (rho pindex nbin) 0%nat) * pdvol /\ length w = nbin
+  end.
+Proof.
+  intros Hall Hb. simpl. split.
+  - unfold Model.get. rewrite (nth_map_in _ _ _ 0%nat) by (rewrite rho_length; assumption). reflexivity.
+  - rewrite map_length. apply rho_length. exact Hall.
+Qed.
+
+(* ---- _single_power_analyze --------------------------------------------------------------------- *)
+Local Notation single := (single_power_analyze R r0 r1 radd rmul rinv).
+
+Lemma split_facts {A} (dpre : list A) s dpost :
+  nth_error (dpre ++ s :: dpost) (length dpre) = Some s /\
+  firstn (length dpre) (dpre ++ s :: dpost) = dpre /\
+  skipn (S (length dpre)) (dpre ++ s :: dpost) = dpost.
+Proof.
+  repeat split.
+  - rewrite nth_error_app2 by lia. rewrite Nat.sub_diag. reflexivity.
+  - rewrite firstn_app, Nat.sub_diag, firstn_all. simpl. apply app_nil_r.
+  - replace (S (length dpre)) with (length (dpre ++ [s])) by (rewrite app_length; simpl; lia).
+    replace (dpre ++ s :: dpost) with ((dpre ++ [s]) ++ dpost) by (rewrite <- app_assoc; reflexivity).
+    rewrite skipn_app, Nat.sub_diag, skipn_all. reflexivity.
+Qed.
+
+Definition dom' (dpre : list space) pindex nbin pdvol (dpost : list space) : list space :=
+  dpre ++ pspace R r0 r1 radd rmul pindex nbin pdvol :: dpost.
+
+Lemma single_unfold dpre s dpost pdvol pindex nbin x :
+  sdv s = Scalar pdvol -> length pindex = ssize s -> bins_ok pindex nbin ->
+  single (dpre ++ s :: dpost) (length dpre) pindex nbin x
+  = Some (dom' dpre pindex nbin pdvol dpost,
+          weight R r0 r1 rmul rinv true (dom' dpre pindex nbin pdvol dpost)
+            (dist_adjoint R r0 radd (prodsz dpre) (ssize s) (prodsz dpost) nbin pindex
+               (weight R r0 r1 rmul rinv false (dpre ++ s :: dpost) x))).
+Proof.
+  intros Hs HL Hb. unfold single_power_analyze, pd_adjoint.
+  destruct (split_facts dpre s dpost) as (E1 & E2 & E3).
+  rewrite E1, Hs, E2, E3, HL, Nat.eqb_refl. simpl negb. cbv iota.
+  rewrite (rho_no_zero _ _ Hb). reflexivity.
+Qed.
+
+(* the value of one analysed entry, in any commutative ring: weighted bin sum times the inverse weights *)
+Lemma single_formula dpre s dpost pdvol pindex nbin x i1 b i3 :
+  sdv s = Scalar pdvol -> length pindex = ssize s -> bins_ok pindex nbin ->
+  length x = prodsz (dpre ++ s :: dpost) ->
+  i1 < prodsz dpre -> b < nbin -> i3 < prodsz dpost ->
+  exists y, single (dpre ++ s :: dpost) (length dpre) pindex nbin x = Some (dom' dpre pindex nbin pdvol dpost, y) /\
+    length y = (prodsz dpre * nbin * prodsz dpost)%nat /\
+    get y (idx3 nbin (prodsz dpost) i1 b i3)
+    = Sum (ssize s) (fun j => if nth j pindex 0%nat =? b
+                               then get x (idx3 (ssize s) (prodsz dpost) i1 j i3)
+                                    * (pfac false dpre i1 * pfac false dpost i3)
+                                    * (sfac dpre * (pdvol * sfac dpost))
+                               else r0)
+      * (pfac true dpre i1 * rinv (ofn (nth b (rho pindex nbin) 0%nat) * pdvol) * pfac true dpost i3)
+      * rinv (sfac dpre * sfac dpost).
+Proof.
+  intros Hs HL Hb Hx H1 Hbb H3.
+  eexists. split; [apply single_unfold; eassumption|].
+  set (d := dpre ++ s :: dpost). set (d' := dom' dpre pindex nbin pdvol dpost).
+  set (pre := prodsz dpre) in *. set (post := prodsz dpost) in *. set (n := ssize s) in *.
+  assert (Hlen : length x = (pre * n * post)%nat).
+  { rewrite Hx. unfold d. rewrite prodsz_app, prodsz_cons. fold pre post n. lia. }
+  split.
+  { rewrite weight_length, dist_adjoint_length. reflexivity. }
+  destruct Hb as [Hall Hne].
+  rewrite weight_get by (rewrite dist_adjoint_length; apply idx3_lt; assumption).
+  rewrite dist_adjoint_get by assumption.
+  (* the outer weights *)
+  pose proof (pspace_dvol_get pindex nbin pdvol b Hall Hbb) as Hdv.
+  assert (Hsz' : ssize (pspace R r0 r1 radd rmul pindex nbin pdvol) = nbin) by reflexivity.
+  unfold d', dom'.
+  pose proof (pfac_block true dpre (pspace R r0 r1 radd rmul pindex nbin pdvol) dpost i1 b i3) as PB.
+  rewrite Hsz' in PB. fold post in PB. rewrite PB by assumption. clear PB.
+  cbn [sdv pspace] in Hdv |- *.
+  destruct Hdv as [Hg _].
+  assert (Esf' : sfac (dpre ++ pspace R r0 r1 radd rmul pindex nbin pdvol :: dpost) = sfac dpre * sfac dpost).
+  { rewrite sfac_app. reflexivity. }
+  rewrite Esf'. simpl pw. rewrite Hg.
+  f_equal. f_equal.
+  apply Sum_ext. intros j Hj.
+  destruct (nth j pindex 0%nat =? b); [|reflexivity].
+  rewrite weight_get by (rewrite Hlen; apply idx3_lt; assumption).
+  unfold d. pose proof (pfac_block false dpre s dpost i1 j i3 Hj H3) as PB.
+  fold post n in PB. rewrite PB. rewrite Hs.
+  rewrite sfac_app. simpl sfac. rewrite Hs. simpl pw. ring.
+Qed.
+
+Definition rho_ok (pindex : list nat) (nbin : nat) : Prop :=
+  forall b, b < nbin -> ofn (nth b (rho pindex nbin) 0%nat) <> r0.
+
+(* analysis = bin mean *)
+Lemma single_mean dpre s dpost pdvol pindex nbin x i1 b i3 :
+  sdv s = Scalar pdvol -> length pindex = ssize s -> bins_ok pindex nbin -> rho_ok pindex nbin ->
+  dvol_ok dpre -> dvol_ok dpost -> pdvol <> r0 ->
+  length x = prodsz (dpre ++ s :: dpost) ->
+  i1 < prodsz dpre -> b < nbin -> i3 < prodsz dpost ->
+  exists y, single (dpre ++ s :: dpost) (length dpre) pindex nbin x = Some (dom' dpre pindex nbin pdvol dpost, y) /\
+    length y = (prodsz dpre * nbin * prodsz dpost)%nat /\
+    get y (idx3 nbin (prodsz dpost) i1 b i3)
+    = Sum (ssize s) (fun j => if nth j pindex 0%nat =? b
+                               then get x (idx3 (ssize s) (prodsz dpost) i1 j i3) else r0)
+      * rinv (ofn (nth b (rho pindex nbin) 0%nat)).
+Proof.
+  intros Hs HL Hb Hr Hpre Hpost Hpd Hx H1 Hbb H3.
+  destruct (single_formula dpre s dpost pdvol pindex nbin x i1 b i3 Hs HL Hb Hx H1 Hbb H3) as (y & E & Ly & G).
+  exists y. split; [exact E|]. split; [exact Ly|]. rewrite G. clear G E.
+  set (K := pfac false dpre i1 * pfac false dpost i3 * (sfac dpre * (pdvol * sfac dpost))).
+  rewrite (Sum_ext _ _ (fun j => (if nth j pindex 0%nat =? b
+                                  then get x (idx3 (ssize s) (prodsz dpost) i1 j i3) else r0) * K)).
+  2:{ intros j _. destruct (nth j pindex 0%nat =? b); unfold K; ring. }
+  rewrite Sum_scale. unfold K.
+  destruct (pfac_inv dpre i1 Hpre) as [N1 ->]. destruct (pfac_inv dpost i3 Hpost) as [N2 ->].
+  pose proof (sfac_nonzero dpre Hpre). pose proof (sfac_nonzero dpost Hpost).
+  specialize (Hr b Hbb).
+  field. repeat split; assumption.
+Qed.
+
+Lemma ofn_add a b : ofn (a + b)%nat = ofn a + ofn b.
+Proof. induction b; simpl. - rewrite Nat.add_0_r. ring. - rewrite Nat.add_succ_r. simpl. rewrite IHb. ring. Qed.
+
+Lemma count_sum (idx : list nat) b c :
+  Sum (length idx) (fun j => if nth j idx 0%nat =? b then c else r0)
+  = ofn (bsum 0%nat Nat.add idx (repeat 1%nat (length idx)) b) * c.
+Proof.
+  induction idx as [|i idx IH]; [simpl; ring|].
+  change (length (i :: idx)) with (S (length idx)). rewrite Sum_shift.
+  cbn [nth repeat bsum]. rewrite IH. rewrite ofn_add.
+  destruct (i =? b); simpl; ring.
+Qed.
+
+Lemma rho_nth pindex nbin b :
+  Forall (fun i => i < nbin) pindex -> b < nbin ->
+  nth b (rho pindex nbin) 0%nat = bsum 0%nat Nat.add pindex (repeat 1%nat (length pindex)) b.
+Proof.
+  intros H Hb. unfold rho. apply bincountG_nth; auto; intros; lia.
+Qed.
+
+(* exactness of one analysis step: analysing a distributed field returns the field *)
+Lemma single_exact dpre s dpost pdvol pindex nbin y :
+  sdv s = Scalar pdvol -> length pindex = ssize s -> bins_ok pindex nbin -> rho_ok pindex nbin ->
+  dvol_ok dpre -> dvol_ok dpost -> pdvol <> r0 ->
+  length y = (prodsz dpre * nbin * prodsz dpost)%nat ->
+  single (dpre ++ s :: dpost) (length dpre) pindex nbin
+         (dist_times R r0 (prodsz dpre) (ssize s) (prodsz dpost) nbin pindex y)
+  = Some (dom' dpre pindex nbin pdvol dpost, y).
+Proof.
+  intros Hs HL Hb Hr Hpre Hpost Hpd Hy.
+  rewrite (single_unfold dpre s dpost pdvol pindex nbin _ Hs HL Hb).
+  f_equal. f_equal.
+  apply (nth_ext _ _ r0 r0).
+  { rewrite weight_length, dist_adjoint_length. symmetry. exact Hy. }
+  intros t Ht. rewrite weight_length, dist_adjoint_length in Ht.
+  destruct (idx3_encode _ _ _ t Ht) as (Et & H1 & Hbb & H3).
+  set (i1 := (t / prodsz dpost / nbin)%nat) in *. set (b := ((t / prodsz dpost) mod nbin)%nat) in *.
+  set (i3 := (t mod prodsz dpost)%nat) in *.
+  assert (Hx : length (dist_times R r0 (prodsz dpre) (ssize s) (prodsz dpost) nbin pindex y)
+               = prodsz (dpre ++ s :: dpost)).
+  { rewrite dist_times_length, prodsz_app, prodsz_cons. lia. }
+  destruct (single_mean dpre s dpost pdvol pindex nbin _ i1 b i3 Hs HL Hb Hr Hpre Hpost Hpd Hx H1 Hbb H3)
+    as (y' & E & _ & G).
+  rewrite (single_unfold dpre s dpost pdvol pindex nbin _ Hs HL Hb) in E.
+  injection E as E. rewrite E. rewrite Et. fold (get y' (idx3 nbin (prodsz dpost) i1 b i3)). rewrite G.
+  fold (get y (idx3 nbin (prodsz dpost) i1 b i3)).
+  rewrite (Sum_ext _ _ (fun j => if nth j pindex 0%nat =? b then get y (idx3 nbin (prodsz dpost) i1 b i3) else r0)).
+  2:{ intros j Hj. destruct (nth j pindex 0%nat =? b) eqn:Ej; [|reflexivity].
+      rewrite dist_times_get by assumption. apply Nat.eqb_eq in Ej. rewrite Ej. reflexivity. }
+  rewrite <- HL. rewrite count_sum. destruct Hb as [Hall Hne].
+  rewrite <- (rho_nth pindex nbin b Hall Hbb).
+  specialize (Hr b Hbb). field. exact Hr.
+Qed.
+
+(* ---- several analysed spaces -------------------------------------------------------------------- *)
+Local Notation analyze := (analyze_spaces R r0 r1 radd rmul rinv).
+Local Notation dom_after := (dom_after R r0 r1 radd rmul).
+Local Notation distribute := (distribute_spaces R r0 r1 radd rmul).
+
+Fixpoint doms_after (d : list space) (specs : list spec) : list space :=
+  match specs with
+  | [] => d
+  | (idx, (pindex, nbin)) :: rest => doms_after (dom_after d idx pindex nbin) rest
+  end.
+
+(* what the real constructors demand of each analysed space, in analysis order *)
+Fixpoint specs_ok (d : list space) (specs : list spec) : Prop :=
+  match specs with
+  | [] => True
+  | (idx, (pindex, nbin)) :: rest =>
+      match nth_error d idx with
+      | Some s =>
+          match sdv s with
+          | Scalar pdvol =>
+              length pindex = ssize s /\ bins_ok pindex nbin /\ rho_ok pindex nbin /\ 0 < nbin /\
+              specs_ok (dom_after d idx pindex nbin) rest
+          | PerPix _ => False
+          end
+      | None => False
+      end
+  end.
+
+Lemma spec_split d idx s pdvol pindex nbin :
+  nth_error d idx = Some s -> sdv s = Scalar pdvol ->
+  exists dpre dpost, d = dpre ++ s :: dpost /\ idx = length dpre /\
+    dom_after d idx pindex nbin = dom' dpre pindex nbin pdvol dpost.
+Proof.
+  intros E Hs. destruct (nth_error_split d idx E) as (l1 & l2 & Ed & El).
+  exists l1, l2. split; [exact Ed|]. split; [symmetry; exact El|].
+  unfold Model.dom_after. rewrite E. destruct s as [n dv]. simpl in Hs. subst dv.
+  subst idx. rewrite Ed. destruct (split_facts l1 (mkSpace n (Scalar pdvol)) l2) as (_ & E2 & E3).
+  rewrite E2, E3. reflexivity.
+Qed.
+
+Lemma dvol_ok_after dpre s dpost pdvol pindex nbin :
+  sdv s = Scalar pdvol -> bins_ok pindex nbin -> rho_ok pindex nbin -> 0 < nbin ->
+  dvol_ok (dpre ++ s :: dpost) -> dvol_ok (dom' dpre pindex nbin pdvol dpost).
+Proof.
+  intros Hs [Hall Hne] Hr Hnb Hd. unfold dvol_ok, dom' in *.
+  apply Forall_app in Hd. destruct Hd as [H1 H2]. inversion H2 as [|? ? Hs1 H3]; subst.
+  apply Forall_app. split; [exact H1|]. constructor; [|exact H3].
+  destruct Hs1 as [_ Hv]. rewrite Hs in Hv.
+  split; [exact Hnb|]. simpl. split.
+  - rewrite map_length. apply rho_length. exact Hall.
+  - apply Forall_forall. intros v Hin. apply in_map_iff in Hin. destruct Hin as (c & <- & Hc).
+    destruct (In_nth _ _ 0%nat Hc) as (b & Hb & Eb). rewrite rho_length in Hb by exact Hall.
+    rewrite <- Eb. apply rmul_nonzero; [apply Hr; exact Hb|exact Hv].
+Qed.
+
+Lemma prodsz_dom' dpre pindex nbin pdvol dpost :
+  prodsz (dom' dpre pindex nbin pdvol dpost) = (prodsz dpre * nbin * prodsz dpost)%nat.
+Proof. unfold dom'. rewrite prodsz_app, prodsz_cons. simpl ssize. lia. Qed.
+
+Lemma distribute_length specs : forall d p,
+  specs_ok d specs -> length p = prodsz (doms_after d specs) ->
+  length (distribute d specs p) = prodsz d.
+Proof.
+  induction specs as [|[idx [pindex nbin]] rest IH]; intros d p Hok Hp; simpl in *; [exact Hp|].
+  destruct (nth_error d idx) as [s|] eqn:E; [|contradiction].
+  destruct (sdv s) as [pdvol|] eqn:Hs; [|contradiction].
+  destruct Hok as (HL & Hb & Hr & Hnb & Hrest).
+  destruct (spec_split d idx s pdvol pindex nbin E Hs) as (dpre & dpost & Ed & Ei & Ea).
+  unfold pd_times. rewrite dist_times_length. subst d idx.
+  destruct (split_facts dpre s dpost) as (_ & E2 & E3). rewrite E2, E3, HL.
+  rewrite prodsz_app, prodsz_cons. lia.
+Qed.
+
+(* C10_analyze_exact *)
+Lemma analyze_exact specs : forall d p,
+  dvol_ok d -> specs_ok d specs -> length p = prodsz (doms_after d specs) ->
+  analyze d specs (distribute d specs p) = Some (doms_after d specs, p).
+Proof.
+  induction specs as [|[idx [pindex nbin]] rest IH]; intros d p Hd Hok Hp; [reflexivity|].
+  cbn [analyze_spaces distribute_spaces doms_after]. cbn [doms_after] in Hp. simpl in Hok.
+  destruct (nth_error d idx) as [s|] eqn:E; [|contradiction].
+  destruct (sdv s) as [pdvol|] eqn:Hs; [|contradiction].
+  destruct Hok as (HL & Hb & Hr & Hnb & Hrest).
+  destruct (spec_split d idx s pdvol pindex nbin E Hs) as (dpre & dpost & Ed & Ei & Ea).
+  pose proof (distribute_length rest _ p Hrest Hp) as Hlen.
+  rewrite Ea in *. subst d idx.
+  unfold pd_times. destruct (split_facts dpre s dpost) as (_ & E2 & E3). rewrite E2, E3, HL.
+  assert (Hd' := Hd). unfold dvol_ok in Hd'. apply Forall_app in Hd'. destruct Hd' as [Hpre Hd'].
+  inversion Hd' as [|? ? Hs1 Hpost]; subst. destruct Hs1 as [_ Hv]. rewrite Hs in Hv.
+  rewrite (single_exact dpre s dpost pdvol pindex nbin _ Hs HL Hb Hr Hpre Hpost Hv).
+  - apply IH; [|exact Hrest|exact Hp].
+    apply (dvol_ok_after dpre s dpost pdvol pindex nbin Hs Hb Hr Hnb Hd).
+  - rewrite Hlen. apply prodsz_dom'.
+Qed.
+
+(* ---- additivity of the analysis (for the phase split) ------------------------------------------ *)
+Local Notation vadd := (vadd R radd).
+
+Lemma vadd_length a b : length a = length b -> length (vadd a b) = length a.
+Proof. intros H. unfold Model.vadd. rewrite map_length, combine_length, H. apply Nat.min_id. Qed.
+
+Lemma vadd_get a b t : length a = length b -> t < length a -> get (vadd a b) t = get a t + get b t.
+Proof.
+  intros H Ht. unfold Model.vadd, Model.get.
+  rewrite (nth_map_in _ _ _ (r0, r0)) by (rewrite combine_length, H, Nat.min_id; lia).
+  rewrite combine_nth by exact H. reflexivity.
+Qed.
+
+Lemma single_add dpre s dpost pdvol pindex nbin x y :
+  sdv s = Scalar pdvol -> length pindex = ssize s -> bins_ok pindex nbin -> 0 < nbin ->
+  length x = prodsz (dpre ++ s :: dpost) -> length y = prodsz (dpre ++ s :: dpost) ->
+  exists ax ay,
+    single (dpre ++ s :: dpost) (length dpre) pindex nbin x = Some (dom' dpre pindex nbin pdvol dpost, ax) /\
+    single (dpre ++ s :: dpost) (length dpre) pindex nbin y = Some (dom' dpre pindex nbin pdvol dpost, ay) /\
+    single (dpre ++ s :: dpost) (length dpre) pindex nbin (vadd x y)
+      = Some (dom' dpre pindex nbin pdvol dpost, vadd ax ay) /\
+    length ax = prodsz (dom' dpre pindex nbin pdvol dpost) /\
+    length ay = prodsz (dom' dpre pindex nbin pdvol dpost).
+Proof.
+  intros Hs HL Hb Hnb Hx Hy.
+  pose proof (single_unfold dpre s dpost pdvol pindex nbin x Hs HL Hb) as Ex.
+  pose proof (single_unfold dpre s dpost pdvol pindex nbin y Hs HL Hb) as Ey.
+  pose proof (single_unfold dpre s dpost pdvol pindex nbin (vadd x y) Hs HL Hb) as Exy.
+  eexists. eexists. split; [exact Ex|]. split; [exact Ey|].
+  match type of Ex with _ = Some (_, ?a) => set (ax := a) in * end.
+  match type of Ey with _ = Some (_, ?a) => set (ay := a) in * end.
+  assert (Lx : length ax = (prodsz dpre * nbin * prodsz dpost)%nat)
+    by (unfold ax; rewrite weight_length, dist_adjoint_length; reflexivity).
+  assert (Ly : length ay = (prodsz dpre * nbin * prodsz dpost)%nat)
+    by (unfold ay; rewrite weight_length, dist_adjoint_length; reflexivity).
+  rewrite prodsz_dom'. split; [|split; assumption].
+  rewrite Exy. f_equal. f_equal.
+  apply (nth_ext _ _ r0 r0).
+  { rewrite weight_length, dist_adjoint_length, vadd_length; lia. }
+  intros t Ht. rewrite weight_length, dist_adjoint_length in Ht.
+  destruct (idx3_encode _ _ _ t Ht) as (Et & H1 & Hbb & H3).
+  set (i1 := (t / prodsz dpost / nbin)%nat) in *. set (b := ((t / prodsz dpost) mod nbin)%nat) in *.
+  set (i3 := (t mod prodsz dpost)%nat) in *.
+  assert (Hxy : length (vadd x y) = prodsz (dpre ++ s :: dpost)) by (rewrite vadd_length; lia).
+  destruct (single_formula dpre s dpost pdvol pindex nbin x i1 b i3 Hs HL Hb Hx H1 Hbb H3) as (zx & Zx & _ & Gx).
+  destruct (single_formula dpre s dpost pdvol pindex nbin y i1 b i3 Hs HL Hb Hy H1 Hbb H3) as (zy & Zy & _ & Gy).
+  destruct (single_formula dpre s dpost pdvol pindex nbin (vadd x y) i1 b i3 Hs HL Hb Hxy H1 Hbb H3) as (zz & Zz & _ & Gz).
+  rewrite Ex in Zx. rewrite Ey in Zy. rewrite Exy in Zz.
+  injection Zx as Zx. injection Zy as Zy. injection Zz as Zz.
+  fold (get (weight R r0 r1 rmul rinv true (dom' dpre pindex nbin pdvol dpost)
+     (dist_adjoint R r0 radd (prodsz dpre) (ssize s) (prodsz dpost) nbin pindex
+        (weight R r0 r1 rmul rinv false (dpre ++ s :: dpost) (vadd x y)))) t).
+  fold (get (vadd ax ay) t).
+  rewrite vadd_get by lia. rewrite Zz. rewrite Et. rewrite Gz.
+  fold ax in Zx. fold ay in Zy. rewrite Zx, Zy. rewrite Gx, Gy.
+  rewrite <- !Sum_scale. rewrite <- Sum_add. apply Sum_ext. intros j Hj.
+  destruct (nth j pindex 0%nat =? b); [|ring].
+  rewrite vadd_get.
+  - ring.
+  - lia.
+  - rewrite Hx, prodsz_app, prodsz_cons.
+    pose proof (idx3_lt (prodsz dpre) (ssize s) (prodsz dpost) i1 j i3 H1 Hj H3). lia.
+Qed.
+
+Lemma analyze_add specs : forall d x y,
+  specs_ok d specs -> length x = prodsz d -> length y = prodsz d ->
+  exists ax ay,
+    analyze d specs x = Some (doms_after d specs, ax) /\
+    analyze d specs y = Some (doms_after d specs, ay) /\
+    analyze d specs (vadd x y) = Some (doms_after d specs, vadd ax ay) /\
+    length ax = prodsz (doms_after d specs) /\ length ay = prodsz (doms_after d specs).
+Proof.
+  induction specs as [|[idx [pindex nbin]] rest IH]; intros d x y Hok Hx Hy.
+  - exists x, y. simpl. repeat split; assumption.
+  - cbn [analyze_spaces doms_after]. simpl in Hok.
+    destruct (nth_error d idx) as [s|] eqn:E; [|contradiction].
+    destruct (sdv s) as [pdvol|] eqn:Hs; [|contradiction].
+    destruct Hok as (HL & Hb & Hr & Hnb & Hrest).
+    destruct (spec_split d idx s pdvol pindex nbin E Hs) as (dpre & dpost & Ed & Ei & Ea).
+    rewrite Ea in *. subst d idx.
+    destruct (single_add dpre s dpost pdvol pindex nbin x y Hs HL Hb Hnb Hx Hy)
+      as (ax & ay & E1 & E2 & E3 & L1 & L2).
+    rewrite E1, E2, E3.
+    apply IH; assumption.
+Qed.
+
+(* ---- power_analyze ------------------------------------------------------------------------------ *)
+Local Notation panalyze := (power_analyze R r0 r1 radd rmul rinv).
+Local Notation sq := (sq R rmul).
+
+Lemma sq_length a : length (sq a) = length a.
+Proof. apply map_length. Qed.
+
+Lemma keep_phase d specs re im :
+  specs <> [] -> specs_ok d specs -> length re = prodsz d -> length im = prodsz d ->
+  exists p0 p1,
+    analyze d specs (sq re) = Some (doms_after d specs, p0) /\
+    analyze d specs (sq im) = Some (doms_after d specs, p1) /\
+    panalyze d specs true (FCplx re im) = Some (doms_after d specs, FCplx p0 p1) /\
+    panalyze d specs false (FCplx re im) = Some (doms_after d specs, FReal (vadd p0 p1)).
+Proof.
+  intros Hne Hok Hre Him.
+  destruct (analyze_add specs d (sq re) (sq im) Hok) as (p0 & p1 & E0 & E1 & E01 & _ & _);
+    try (rewrite sq_length; assumption).
+  exists p0, p1. split; [exact E0|]. split; [exact E1|].
+  destruct specs as [|sp rest]; [contradiction|].
+  unfold power_analyze. rewrite E0, E1, E01. split; reflexivity.
+Qed.
+
+Lemma real_no_phase d specs a : panalyze d specs true (FReal a) = None.
+Proof. destruct specs; reflexivity. Qed.
+
+Lemma panalyze_exact_real d specs a p :
+  specs <> [] -> dvol_ok d -> specs_ok d specs -> length p = prodsz (doms_after d specs) ->
+  sq a = distribute d specs p ->
+  panalyze d specs false (FReal a) = Some (doms_after d specs, FReal p).
+Proof.
+  intros Hne Hd Hok Hp E. destruct specs as [|sp rest]; [contradiction|].
+  unfold power_analyze. rewrite E. rewrite analyze_exact by assumption. reflexivity.
+Qed.
+
+Lemma panalyze_exact_cplx d specs re im p :
+  specs <> [] -> dvol_ok d -> specs_ok d specs -> length p = prodsz (doms_after d specs) ->
+  vadd (sq re) (sq im) = distribute d specs p ->
+  panalyze d specs false (FCplx re im) = Some (doms_after d specs, FReal p).
+Proof.
+  intros Hne Hd Hok Hp E. destruct specs as [|sp rest]; [contradiction|].
+  unfold power_analyze. rewrite E. rewrite analyze_exact by assumption. reflexivity.
+Qed.
+
+(* ---- adjointness <y, D x> = <D^T y, x> ---------------------------------------------------------- *)
+Definition dot (N : nat) (a b : list R) : R := Sum N (fun t => get a t * get b t).
+
+Lemma regroup n nbin (pf : nat -> nat) (g h : nat -> R) :
+  (forall j, j < n -> pf j < nbin) ->
+  Sum n (fun j => g j * h (pf j))
+  = Sum nbin (fun b => Sum n (fun j => if pf j =? b then g j else r0) * h b).
+Proof.
+  induction n; intros Hpf; simpl.
+  - rewrite (Sum_ext _ _ (fun _ => r0)) by (intros; ring). symmetry. apply Sum_zero.
+  - rewrite IHn by (intros; apply Hpf; lia).
+    rewrite (Sum_ext nbin (fun b => (Sum n (fun j => if pf j =? b then g j else r0) + (if pf n =? b then g n else r0)) * h b)
+                     (fun b => Sum n (fun j => if pf j =? b then g j else r0) * h b
+                               + (if pf n =? b then g n * h b else r0))).
+    2:{ intros b _. destruct (pf n =? b); ring. }
+    rewrite Sum_add. f_equal.
+    rewrite (Sum_pick nbin (pf n) (fun b => g n * h b)) by (apply Hpf; lia). reflexivity.
+Qed.
+
+Lemma Sum_blocks a b c F :
+  Sum (a * b * c) F = Sum a (fun i1 => Sum b (fun j => Sum c (fun i3 => F (idx3 b c i1 j i3)))).
+Proof.
+  rewrite Sum_split. rewrite Sum_split. apply Sum_ext. intros i1 _. apply Sum_ext. intros j _.
+  reflexivity.
+Qed.
+
+Lemma adjointness pre n post nbin pindex x y :
+  length pindex = n -> Forall (fun i => i < nbin) pindex ->
+  dot (pre * n * post) y (dist_times R r0 pre n post nbin pindex x)
+  = dot (pre * nbin * post) (dist_adjoint R r0 radd pre n post nbin pindex y) x.
+Proof.
+  intros HL Hall. unfold dot. rewrite !Sum_blocks.
+  apply Sum_ext. intros i1 H1.
+  rewrite (Sum_swap n post). rewrite (Sum_swap nbin post).
+  apply Sum_ext. intros i3 H3.
+  rewrite (Sum_ext n _ (fun j => get y (idx3 n post i1 j i3) * get x (idx3 nbin post i1 (nth j pindex 0%nat) i3))).
+  2:{ intros j Hj. rewrite dist_times_get by assumption. reflexivity. }
+  rewrite (regroup n nbin (fun j => nth j pindex 0%nat) (fun j => get y (idx3 n post i1 j i3))
+                   (fun b => get x (idx3 nbin post i1 b i3))).
+  2:{ intros j Hj. rewrite Forall_forall in Hall. apply Hall. apply nth_In. lia. }
+  apply Sum_ext. intros b Hb. rewrite dist_adjoint_get by assumption. reflexivity.
+Qed.
+
+(* ---- create_power_operator ---------------------------------------------------------------------- *)
+Lemma power_operator_get dpre s dpost pindex nbin p x i1 j i3 :
+  length pindex = ssize s -> length x = prodsz (dpre ++ s :: dpost) ->
+  i1 < prodsz dpre -> j < ssize s -> i3 < prodsz dpost ->
+  get (power_operator_times R r0 rmul (dpre ++ s :: dpost) (length dpre) pindex nbin p x)
+      (idx3 (ssize s) (prodsz dpost) i1 j i3)
+  = get x (idx3 (ssize s) (prodsz dpost) i1 j i3) * get p (nth j pindex 0%nat).
+Proof.
+  intros HL Hx H1 Hj H3. unfold power_operator_times.
+  assert (Es : size_at R r0 (dpre ++ s :: dpost) (length dpre) = ssize s).
+  { unfold size_at. rewrite app_nth2 by lia. rewrite Nat.sub_diag. reflexivity. }
+  destruct (split_facts dpre s dpost) as (_ & _ & E3). rewrite Es, E3.
+  rewrite get_map_seq.
+  2:{ rewrite Hx, prodsz_app, prodsz_cons.
+      pose proof (idx3_lt (prodsz dpre) (ssize s) (prodsz dpost) i1 j i3 H1 Hj H3). lia. }
+  destruct (idx3_decode (ssize s) (prodsz dpost) i1 j i3 Hj H3) as (_ & E2 & _). rewrite E2.
+  f_equal.
+  pose proof (dist_times_get 1 (ssize s) 1 nbin pindex p 0 j 0) as G.
+  unfold idx3 in G. simpl in G. rewrite !Nat.mul_1_r, !Nat.add_0_r in G. apply G; lia.
+Qed.
+
+End Th.
